@@ -84,7 +84,8 @@ def driver_targets():
     return res
 
 
-SRC_PARTS = {"C01": ["gp-memb", "gp-mb", "gp-bp", "gp-qsbr"], "C10": ["wfcq"], "C11": ["wfs", "lfs"], "C12": ["lfq"], "C13": ["defer"]}
+SRC_PARTS = {"C01": ["gp-memb", "gp-mb", "gp-bp", "gp-qsbr"], "C10": ["wfcq"], "C11": ["wfs", "lfs"], "C12": ["lfq"], "C13": ["defer", "futex-defer"],
+             "C02": ["futex-gp"], "C03": ["futex-callrcu"], "C04": ["futex-callrcu"], "C09": ["futex-wq"], "C16": ["futex-wq"]}
 
 
 def main():
@@ -123,7 +124,21 @@ def main():
         # source-translator tie of the static-inline primitives this property's component is made of (props/src.py)
         if a.pid in SRC_PARTS and not chk.violations:
             from props import src
-            src.part(chk, SRC_PARTS[a.pid])
+            if not src.part(chk, SRC_PARTS[a.pid]) and chk.violations and chk.violations[-1].get("no_failing_input_found") \
+                    and hasattr(mod, "src_search"):
+                # the tie broke (translator, refinement theorem or trace replay): look for a concrete failing input
+                try:
+                    found = mod.src_search(chk)
+                except Exception:
+                    found = None
+                if found:
+                    v = chk.violations[-1]
+                    v["no_failing_input_found"] = False
+                    v["kind"] = "schedule"
+                    v["broken_tie"] = {k: v.get(k) for k in ("theorem", "what", "lean_error", "driver") if k in v}
+                    v.update({k: x for k, x in found.items() if k not in ("property", "kind")})
+                    v["what"] = "implementation oracle: " + "; ".join(found.get("oracle", []))
+                    v["scenario"] = found.get("scenario", v.get("scenario_owner", ""))
         signal.alarm(0)
     except Exception as ex:  # machinery failure must not look like a pass
         import traceback
